@@ -131,4 +131,5 @@ func Observe(tag string, b []byte) {
 	Observed = append(Observed, tag+"="+hex.EncodeToString(b))
 }
 func AssumeCollisionFree() {}
+func AllocBudget(bytes int) {}
 func Note(s string)        {}
